@@ -348,7 +348,7 @@ def build_jobs(tier, seed):
     root = CTX["root"]
     configs = prepare(tier, seed, root)
     CTX["refs"] = None
-    nh = 640 if tier == "quick" else 40000
+    nh = 640 if tier == "quick" else 12000
     per = 10 if tier == "quick" else 250
     jobs = [{"first": f, "n": min(per, nh - f), "seed": seed, "tier": tier} for f in range(0, nh, per)]
     rng = random.Random(derive_seed(seed, PROP, "iso"))
